@@ -22,7 +22,7 @@ def make_case(seed, prop, index, families=MAIN_FAMILIES, flavours=S.FLAVOURS_MAI
     elif fam == "ONE1":
         case = g.case_one(flavour, shape, 1, n, base_side=rng.randrange(2), weights=weights)
     elif fam == "DISJ":
-        case = g.case_disj(flavour, shape, n)
+        case = g.case_disj(flavour, shape, n, weights=weights)
     elif fam == "CONF":
         case = g.case_conf(flavour, shape, n)
     elif fam in ("SONE0", "SONE1"):
